@@ -514,7 +514,7 @@ struct BorrowT<'a> {
 
 /// feed_ref with a genuinely buffer-borrowing target type
 fn borrowed_lane(t: &mut Tctx) {
-    let n_streams = t.cfg.scale(3, 300, 6000);
+    let n_streams = t.cfg.scale(3, 2000, 40_000);
     for _ in 0..n_streams {
         if t.cfg.expired() {
             break;
@@ -623,8 +623,8 @@ pub fn run_c08(cfg: &Cfg) -> Report {
         // (a) all chunkings of short streams
         let (short_len, n_short) = match t.cfg.tier {
             Tier::Tiny => (6usize, 2u64),
-            Tier::Quick => (12, 24),
-            Tier::Thorough => (16, 40),
+            Tier::Quick => (12, 60),
+            Tier::Thorough => (16, 64),
         };
         for si in 0..n_short {
             if t.cfg.expired() {
@@ -667,7 +667,7 @@ pub fn run_c08(cfg: &Cfg) -> Report {
             }
         }
         // (b) all single transitions state(i) --stream[i..j]--> of medium streams
-        let n_med = t.cfg.scale(1, 30, 600);
+        let n_med = t.cfg.scale(1, 150, 2000);
         for _ in 0..n_med {
             if t.cfg.expired() {
                 break;
@@ -704,7 +704,7 @@ pub fn run_c08(cfg: &Cfg) -> Report {
             t.st.add("transitions_enumerated", done);
         }
         // (c) random chunkings of long streams
-        let n_long = t.cfg.scale(2, 200, 6000);
+        let n_long = t.cfg.scale(2, 1500, 30_000);
         for _ in 0..n_long {
             if t.cfg.expired() {
                 break;
@@ -820,8 +820,8 @@ pub fn run_c09(cfg: &Cfg) -> Report {
         let targets = vec![Shape::Unit, Shape::U8, Shape::Tuple(vec![Shape::U8, Shape::U8]), Shape::Seq(Box::new(Shape::U8)), Shape::Option(Box::new(Shape::U8)), Shape::Tuple(vec![Shape::U8, Shape::U8, Shape::U8, Shape::U8])];
         let (short_len, n_short) = match t.cfg.tier {
             Tier::Tiny => (6usize, 2u64),
-            Tier::Quick => (12, 30),
-            Tier::Thorough => (16, 48),
+            Tier::Quick => (12, 80),
+            Tier::Thorough => (16, 80),
         };
         for si in 0..n_short {
             if t.cfg.expired() {
@@ -880,7 +880,7 @@ pub fn run_c09(cfg: &Cfg) -> Report {
                 let k = (fl - 2) as usize;
                 let shape = Shape::Tuple((0..k).map(|_| Shape::U8).collect());
                 let text = shape.text();
-                let reps = t.cfg.scale(1, 6, 60);
+                let reps = t.cfg.scale(1, 30, 300);
                 for _ in 0..reps {
                     let payload: Vec<u8> = (0..k).map(|_| if t.rng.chance(1, 5) { 0 } else { t.rng.next() as u8 }).collect();
                     let mut frame = cobs_encode(&payload);
@@ -925,7 +925,7 @@ pub fn run_c09(cfg: &Cfg) -> Report {
             }
         }
         // random long streams and random bytes
-        let n_long = t.cfg.scale(2, 300, 8000);
+        let n_long = t.cfg.scale(2, 3000, 60_000);
         for _ in 0..n_long {
             if t.cfg.expired() {
                 break;
